@@ -31,7 +31,7 @@ MIN_NONTRIVIAL = {"quick": 100, "thorough": 4000}
 
 
 class Universe:
-    def __init__(self, seed):
+    def __init__(self, seed, deep=False):
         from vf import build as b
         from vf.histgen import Gen
         env.use_fast_pow()
@@ -77,6 +77,14 @@ class Universe:
         self.world.accept("x33", nxt)
         self.labels["x33"] = "x33"
         self.tips = ["t30", "t30", "t20", "t12", "d27", "d15", "r31", "r30", "r30", "r29", "e24", "t5", "g", "t3"]
+        self.deep = deep
+        if deep:
+            # two branches that part at t5 and are both more than 100 blocks long (K to height 118, L to height 126): a node on K
+            # has to take blocks that attach more than 100 below its head
+            gen.opts["p_tx"] = 0.1
+            chain("K", self.labels["t5"], range(6, 119))
+            chain("L", self.labels["t5"], range(6, 127))
+            gen.opts["p_tx"] = 0.5
         # a block q29 (a sibling of t29 and r29) that mines a transaction whose input stays unspent all the way to r31
         self.pool_history = []
         both = sorted((r_, o) for r_, o in self.node("t28").utxo.items() if r_ in self.node("r31").utxo and o[0] >= 2 and any(k.pub == o[1] for k in KEYS))
@@ -541,6 +549,12 @@ def gen_case(rnd, u):
     for _ in range(n):
         k = rnd.choice([1, 1, 2])
         tips.append([u.tips[rnd.randrange(len(u.tips))] for _ in range(k)])
+    if u.deep and rnd.random() < 0.12:
+        # family "fork deeper than 100": one node on branch K (height 118), one on L (126); everybody must end on L
+        third = rnd.random() < 0.4
+        return {"tips": [["K118"], ["L126"]] + ([[rnd.choice(["t30", "K60", "g"])]] if third else []), "topo": [[0, 1]] + ([[2, 0]] if third else []),
+                "batch": 500, "sched_seed": rnd.randrange(1 << 30), "discipline": rnd.choice(["uniform", "run_to_completion"]),
+                "n_events": rnd.choice([0, 300]), "clock_off": rnd.choice([0, 7]), "started_ago": rnd.choice([0, 10_000]), "family": "fork_deeper_than_100"}
     if rnd.random() < 0.12 and u.pool_history:
         # line A - B - C; B once pooled a transaction that was then mined on its (shorter) d-branch; everybody ends on the t-branch
         name, ti = u.pool_history[rnd.randrange(len(u.pool_history))]
@@ -584,7 +598,7 @@ def shards(tier):
 
 def run(shard, tier, seed):
     res = Result()
-    u = Universe(env.subseed(seed, ID, "uni", shard["i"] % 4))
+    u = Universe(env.subseed(seed, ID, "uni", shard["i"] % 4), deep=shard["i"] == 15)
     n = 80 if tier == "quick" else 1500
 
     @hypothesis.seed(env.subseed(seed, ID, shard["i"]))
@@ -639,5 +653,5 @@ def run(shard, tier, seed):
 
 
 def replay(case):
-    u = Universe(env.subseed(int(case.get("seed", 1)), ID, "uni", case.get("universe", 0)))
+    u = Universe(env.subseed(int(case.get("seed", 1)), ID, "uni", case.get("universe", 0)), deep=case.get("family") == "fork_deeper_than_100")
     return execute(case, u).fails
